@@ -109,8 +109,16 @@ func clip(s string, n int) string {
 // totality: arbitrary input; Direct violation on panic/hang; the output of
 // documents without raw HTML must be well-formed HTML; the container
 // operations must be balanced.
+// lightTotal: only the totality verdict (used by the emphasis sweep, whose
+// documents are judged by the agreement and kernel cases).
+var lightTotal = false
+
 func emitTotal(c *reg.Ctx, kind, doc string) rendered {
 	r := render(doc, 60*time.Second)
+	if lightTotal && r.fail == "" {
+		c.Count("total/" + kind)
+		return r
+	}
 	class := "total/" + kind
 	c.Count(class)
 	if r.fail != "" {
@@ -452,6 +460,126 @@ func runKernels(c *reg.Ctx, n int) {
 	}
 }
 
+// ---- emphasis-focused stream ----
+
+// emphStack computes the delimiter stack the inline parser builds for a
+// one-line text made only of delimiter runs and plain separators, with the
+// real classification function.
+func emphStack(text string) ([]md.VerifC35Delim, []string) {
+	var ds []md.VerifC35Delim
+	var coq []string
+	rs := []rune(text)
+	add := func(d md.VerifC35Delim) {
+		ds = append(ds, d)
+		coq = append(coq, App("Din", N(uint64(d.Typ)), Nat(d.N), Bool(d.CanOpen), Bool(d.CanClose)))
+	}
+	for i := 0; i < len(rs); {
+		if rs[i] != '*' && rs[i] != '_' {
+			add(md.VerifC35Delim{Typ: 'x', N: 1})
+			for i < len(rs) && rs[i] != '*' && rs[i] != '_' {
+				i++
+			}
+			continue
+		}
+		j := i
+		for j < len(rs) && rs[j] == rs[i] {
+			j++
+		}
+		prev, next := '\n', '\n'
+		if i > 0 {
+			prev = rs[i-1]
+		}
+		if j < len(rs) {
+			next = rs[j]
+		}
+		o, cl := md.VerifC35CanOpenCloseEmphasis(rs[i], prev, next)
+		add(md.VerifC35Delim{Typ: byte(rs[i]), N: j - i, CanOpen: o, CanClose: cl})
+		i = j
+	}
+	return ds, coq
+}
+
+func tokCoq(toks []md.VerifC35Tok) []string {
+	var coqT []string
+	for _, t := range toks {
+		switch t.Kind {
+		case 0:
+			coqT = append(coqT, App("OText", Nat(t.Piece), Nat(t.Len)))
+		case 1:
+			coqT = append(coqT, "(OStart false)")
+		case 2:
+			coqT = append(coqT, "(OEnd false)")
+		case 3:
+			coqT = append(coqT, "(OStart true)")
+		case 4:
+			coqT = append(coqT, "(OEnd true)")
+		}
+	}
+	return coqT
+}
+
+// emphDoc judges one emphasis text twice: the delimiter-stack kernel against
+// the Coq model (correspondence) and the rendered paragraph against goldmark
+// (reliable class: no brackets).
+func emphDoc(c *reg.Ctx, kind, text string) {
+	ds, coq := emphStack(text)
+	toks := md.VerifC35ProcessEmphasis(ds)
+	c.Count("kernel/" + kind)
+	c.Emit(reg.Case{Coq: App("KEmph", List(coq), List(tokCoq(toks))), Desc: desc{Kind: kind + "/stack", Input: text, Obs: fmt.Sprint(toks)},
+		Key: kind + "|" + text, Class: "kernel-emph", Nontrivial: len(ds) > 1})
+	lightTotal = true
+	tryGoldmark(c, kind, text)
+	lightTotal = false
+}
+
+func runEmphasis(c *reg.Ctx, n int) {
+	// exhaustive: all sequences of up to 4 star runs of lengths up to 4 separated by
+	// letters, bare and wrapped in letters
+	letters := "abc"
+	var rec func(prefix string, k int)
+	rec = func(prefix string, k int) {
+		if k > 0 {
+			emphDoc(c, "emph-sweep", prefix)
+			emphDoc(c, "emph-sweep", "x"+prefix+"y")
+		}
+		if k == 4 {
+			return
+		}
+		for l := 1; l <= 4; l++ {
+			next := prefix
+			if k > 0 {
+				next += string(letters[k-1])
+			}
+			rec(next+strings.Repeat("*", l), k+1)
+		}
+	}
+	rec("", 0)
+	// the shapes of the pre-0.30 openers_bottom bug and close relatives
+	for _, t := range []string{"**a*b****", "*a**b*****", "__a_b____", "**a*b**** c", "***a**b*****", "*a*b***", "**a**b******", "a**b*c****", "**a_b*c****"} {
+		emphDoc(c, "emph-fixed", t)
+	}
+	// random: 2-6 runs of lengths 1-5 of both delimiters, separated so that runs
+	// are left-flanking, right-flanking or both
+	seps := []string{"a", "b", " ", ".", "(", ")", "a ", " b", "a.", ".b", ", ", "é", ""}
+	for i := 0; i < n; i++ {
+		var sb strings.Builder
+		sb.WriteString(seps[c.Rand.Intn(len(seps))])
+		for k, m := 0, 2+c.Rand.Intn(5); k < m; k++ {
+			ch := "*"
+			if c.Rand.Intn(3) == 0 {
+				ch = "_"
+			}
+			sb.WriteString(strings.Repeat(ch, 1+c.Rand.Intn(5)))
+			if k < m-1 {
+				sb.WriteString(seps[c.Rand.Intn(len(seps)-1)])
+			} else {
+				sb.WriteString(seps[c.Rand.Intn(len(seps))])
+			}
+		}
+		emphDoc(c, "emph-random", strings.TrimSpace(sb.String()))
+	}
+}
+
 func run(c *reg.Ctx) {
 	g := &mdgen.Gen{R: c.Rand}
 	// 1. the CommonMark spec corpus
@@ -467,6 +595,7 @@ func run(c *reg.Ctx) {
 		nk = 40
 	}
 	runKernels(c, nk)
+	runEmphasis(c, c.N/4)
 	// 4. grammar-generated documents against goldmark
 	nd := c.N / 4
 	for i := 0; i < nd; i++ {
